@@ -169,6 +169,9 @@ def rpd_exhaustive(wcfg, b12, alphabet, maxlen, minlen=1):
 
 
 REQ_ALPHABET = ["g0", "g1", "g2", "g3", "g43", "e1", "f2", "P44", "F0", "K3", "2g1", "S4.3", "S2.8"]
+# recipient management interleaved with deliveries (ids 2 and 3 are configured; 3 is the head of
+# the chain, 2 its tail; 4 is new)
+MGMT_ALPHABET = ["g1", "g2", "e1", "2g1", "f3", "+2", "+3", "+4", "-2", "-3", "-4"]
 
 
 def rpd_random(r):
@@ -180,8 +183,12 @@ def rpd_random(r):
     sent = []
     last = r.choice([0, 0, 3, 70, 500, SEQ_MAX - 80])
     n = r.choice([3, 5, 8, 12, 20])
+    mgmt = r.random() < 0.35                     # histories with recipient management calls
     for i in range(n):
         c = r.random()
+        if mgmt and r.random() < 0.2:
+            msgs.append(r.choice(["+2", "+2", "+3", "+3", "+4", "-2", "-3", "-4"]))
+            continue
         if sent and c < 0.25:
             msgs.append(r.choice(sent))          # replay on the wire
             continue
@@ -245,7 +252,8 @@ def oracle_nonces(steps):
 
 
 def parse_rpd(line, out):
-    """-> (wcfg, b12, [(ctx, kind, seq, verdict, (state ctx0, state ctx1))]) or None"""
+    """-> (wcfg, b12, [(ctx, kind, seq, verdict, (state ctx0, state ctx1))]) or None.
+    Management tokens +<id> / -<id>: kind '+' / '-', seq = id, verdict = return value."""
     t = line.split()
     msgs = t[5:]
     res = out.split()
@@ -253,8 +261,6 @@ def parse_rpd(line, out):
         return None
     steps = []
     for m, o in zip(msgs, res):
-        who = 1 if m[0] == "2" else 0
-        mm = m[who:]
         o = nonce_tags(o)[0]
         parts = o.split("/")
         f = parts[0].split(",")
@@ -262,8 +268,18 @@ def parse_rpd(line, out):
             return None
         st0 = tuple(f[1:])
         st1 = tuple(parts[1].split(",")) if len(parts) > 1 else ("0", "0", "1")
+        if m[0] in "+-":
+            rid = int(m[1:], 16)
+            steps.append(({2: 0, 3: 1}.get(rid, -1), m[0], rid, f[0], (st0, st1)))
+            continue
+        who = 1 if m[0] == "2" else 0
+        mm = m[who:]
         steps.append((who, mm[0], tok_seq(mm), f[0], (st0, st1)))
     return t[2], int(t[3]), steps
+
+
+ABSENT = ("-", "-", "-")
+INIT = ("0", "0", "1")
 
 
 def oracle_rpd(line, out):
@@ -272,15 +288,41 @@ def oracle_rpd(line, out):
     if p is None:
         return ["unparsable result: %s" % out[:80]]
     wcfg, b12, steps = p
-    bad = oracle_nonces([((st[0], st[2]), nonce_tags(o)[1]) for st, o in zip(steps, out.split())])
-    accepted = ([], [])
-    prev = (("0", "0", "1"), ("0", "0", "1"))
+    bad = oracle_nonces([((st[0], st[2]), nonce_tags(o)[1]) for st, o in zip(steps, out.split())
+                         if st[1] not in "+-"])
+    accepted = ([], [])          # per lifetime of a recipient context
+    prev = (INIT, INIT)
     for i, (who, kind, seq, verdict, st) in enumerate(steps):
+        if kind in "+-":
+            # recipient management: an id that exists is not added again and its window is not
+            # touched; delete + add gives a new context (initial state, new lifetime)
+            for c in (0, 1):
+                if c != who and st[c] != prev[c]:
+                    bad.append("step %d: %s%x changed the replay state of another recipient context %s -> %s"
+                               % (i, kind, seq, ",".join(prev[c]), ",".join(st[c])))
+            if who >= 0:
+                present = prev[who] != ABSENT
+                if kind == "+":
+                    if present and (verdict != "0" or st[who] != prev[who]):
+                        bad.append("step %d: recipient id %x added again (returned %s): the replay state of "
+                                   "the existing context went %s -> %s" % (i, seq, verdict, ",".join(prev[who]), ",".join(st[who])))
+                    if not present and (verdict != "1" or st[who] != INIT):
+                        bad.append("step %d: adding recipient id %x returned %s, state %s" % (i, seq, verdict, ",".join(st[who])))
+                    if not present and verdict == "1":
+                        del accepted[who][:]
+                else:
+                    if present != (verdict == "1") or st[who] != ABSENT:
+                        bad.append("step %d: deleting recipient id %x returned %s, state %s" % (i, seq, verdict, ",".join(st[who])))
+            prev = st
+            continue
         acc = accepted[who]
         if st[1 - who] != prev[1 - who]:
             bad.append("step %d: a message for one recipient context changed the replay state of the other %s -> %s"
                        % (i, ",".join(prev[1 - who]), ",".join(st[1 - who])))
-        if kind in FORGE_KINDS:
+        if prev[who] == ABSENT:
+            if verdict == "A" or st[who] != ABSENT:
+                bad.append("step %d: a message for a recipient id that does not exist was accepted / created state" % i)
+        elif kind in FORGE_KINDS:
             if verdict == "A":
                 bad.append("step %d: message failing authentication (claimed PIV %x) reached the handler" % (i, seq))
             if st[who] != prev[who]:
